@@ -543,5 +543,22 @@ def cr_enclosing_loop(n):
     return a
 
 
+
+def r13_groupby_input_sorted(chk):
+    """repeated FROM clauses, repeated keys of any list the parser groups: grouping must not depend on adjacency"""
+    common.groupby_input_is_sorted(chk, 'C01.R13', sorted(r for r in chk.model.modules if r.startswith((
+        'pysmi/parser/', 'pysmi/codegen/'))), 'parser and code generators (the IMPORTS of a module decide where a parent OID is looked up)')
+
+
+
+def r14_imports_followed_for_every_module(chk):
+    """shared with C08.R1: a parent OID two import hops away resolves only if the imports of dependencies are followed"""
+    from rules.C08 import r1_worklist_growth
+    common.reuse(chk, lambda c: r1_worklist_growth(c), ('C08.R1',), 'C01.R14',
+                 'compile() queues the imports of every module it parses, under no condition (C08.R1): a valid module set '
+                 'whose parent chain crosses two modules compiles only if the symbol table holds the whole closure',
+                 floor=1)
+
+
 RULES = [r1_subidentifier_shapes, r2_genoid, r3_numeric, r4_trap, r5_fixpoint, r6_translate, r7_plumbing,
-         r7b_summary_not_aliased, r8_normalisation, r9_symbol_tables_keyed_by_module_name, r10_largest_subidentifier, r11_generators_start_clean, r12_root_needs_no_module]
+         r7b_summary_not_aliased, r8_normalisation, r9_symbol_tables_keyed_by_module_name, r10_largest_subidentifier, r11_generators_start_clean, r12_root_needs_no_module, r13_groupby_input_sorted, r14_imports_followed_for_every_module]
